@@ -758,6 +758,17 @@ Section Arith.
         else if negb (forallb (fun t => (0 <=? t) && (t <? ntraps)) traps) then Err EValue
         else match ordered with [] => Err EValue | _ => Ok ordered end.
 
+    (** MappableRegister.find_indices: positions of ids in the declared order *)
+    Fixpoint zindex (l : list Z) (x : Z) : option Z :=
+      match l with
+      | [] => None
+      | y :: r => if y =? x then Some 0
+                  else match zindex r x with Some i => Some (i + 1) | None => None end
+      end.
+    Definition find_indices (declared : list Z) (ids : list Z) : res (list Z) :=
+      if negb (zsubset ids declared) then Err EValue
+      else mapM (fun x => match zindex declared x with Some i => Ok i | None => Err EValue end) ids.
+
     (** [target_index] / [phase_shift_index]: [self._register.qubit_ids[int(i)]] *)
     Definition resolve_index (reg : list (Z * Z)) (i : Z) : res Z :=
       let n := Z.of_nat (length reg) in
